@@ -112,6 +112,34 @@ def fin_cls():
     return _fin["cls"]
 
 
+_PADHOOK = [None]
+_pads = {}
+
+
+def pads():
+    """Harness paddings: every call the library makes into the padding object (resolve, get_padded_size,
+    _get_exact_dimensions_, pad) is a fault point."""
+    if not _pads:
+        P = M.lib()["P"]
+
+        def point():
+            if _PADHOOK[0] is not None:
+                _PADHOOK[0]()
+
+        def wrap(base, names):
+            ns = {"__slots__": ()}
+            for name in names:
+                def method(self, *a, _name=name, **k):
+                    point()
+                    return getattr(base, _name)(self, *a, **k)
+                ns[name] = method
+            return type("Fault" + base.__name__, (base,), ns)
+
+        _pads["A"] = wrap(P.AlignedPadding, ("resolve", "get_padded_size", "_get_exact_dimensions_", "pad"))
+        _pads["E"] = wrap(P.ExactPadding, ("get_padded_size", "_get_exact_dimensions_", "pad"))
+    return _pads
+
+
 class Shim:
     def __init__(self, r, it):
         self.r, self.it = r, it
@@ -151,14 +179,14 @@ class Scn:
                                     #   owner= "caller" | generation of the owning iterator, caller_fin=bool)
         self.budget = cfg["faults"]
         self.fired = False
-        self.calls = (0, 0, 0, 0, 0)
+        self.calls = (0, 0, 0, 0, 0, 0)
 
     # ---------------------------------------------------------------- fault plumbing
     def arm(self, fault):
         r = self.r
         base = dict(render=r.n_render, getdata=r.n_getdata, finalize=getattr(r, "n_finalize", 0))
         self.fired = False
-        if fault is None or fault[0] in ("validate", "stdout", "termsize"):
+        if fault is None or fault[0] in ("validate", "stdout", "termsize", "padding"):
             r.fault = None
             return
 
@@ -220,6 +248,16 @@ class Scn:
             return real_gts()
 
         RM.get_terminal_size = gts
+        dpad = pads()["A"](0, -2)       # = the default padding of draw(), with fault points
+        npad = [0]
+
+        def padpoint():
+            npad[0] += 1
+            if fault is not None and fault[0] == "padding" and npad[0] == fault[1] and not self.fired:
+                self.fired = True
+                raise exc_of(fault[2])
+
+        _PADHOOK[0] = padpoint
         f0 = getattr(r, "n_finalize", 0)
         fin_fault = fault is not None and fault[0] == "finalize"
         old_unraisable = sys.unraisablehook
@@ -232,9 +270,9 @@ class Scn:
             elif k == "str":
                 str(r)
             elif k == "draw":
-                r.draw(animate=False)
+                r.draw(None, dpad, animate=False)
             elif k == "drawa":
-                r.draw(loops=op[1], cache=op[2])
+                r.draw(None, dpad, loops=op[1], cache=op[2])
             elif k == "badargs":            # render arguments of an unrelated render class: every entry point
                 bad = lb["args"]["bad"]
                 if op[1] == "render":
@@ -259,18 +297,18 @@ class Scn:
                         self.rec[n0 - 1]["caller_fin"] = not early
             elif k == "drawx":
                 if op[1] == "nocheck":
-                    r.draw(animate=False, check_size=False)
+                    r.draw(None, dpad, animate=False, check_size=False)
                 elif op[1] == "scroll":
-                    r.draw(animate=False, allow_scroll=True)
+                    r.draw(None, dpad, animate=False, allow_scroll=True)
                 elif op[1] == "exactpad":
-                    r.draw(None, M.make_pad("E1010"), animate=False)
+                    r.draw(None, pads()["E"](1, 0, 1, 0), animate=False)
                 else:
-                    r.draw(animate=False, echo_input=True, hide_cursor=False)
+                    r.draw(None, dpad, animate=False, echo_input=True, hide_cursor=False)
             elif k == "iter":
                 self.drop_iterator()
                 self.it_data = None
                 self.gen += 1
-                self.it = lb["RI"](r, None, M.make_pad("E0"), op[1], op[2])
+                self.it = lb["RI"](r, None, pads()["E"](), op[1], op[2])
                 self.it_state, self.it_data = "open", len(r.datas) - 1
             elif k in ("frd", "frd_stale"):
                 self.drop_iterator()
@@ -319,8 +357,11 @@ class Scn:
             if k == "next" and self.it_state == "open":
                 self.it_state = "closed" if isinstance(e, Exception) else "zombie"
             del e
+            if k in ("iter", "frd", "frd_stale", "badargs"):
+                gc.collect()         # a half-built iterator is garbage now: it must release what it owns
         finally:
             RM.get_terminal_size = real_gts
+            _PADHOOK[0] = None
             sys.unraisablehook = old_unraisable
             r.fault = None
             if fault is not None and fault[0] == "validate":
@@ -332,7 +373,7 @@ class Scn:
             # close() was cut short by the failing hook: nothing about the iterator's state is demanded any more
             self.it_state = "zombie"
         self.calls = (r.n_render - r0, r.n_getdata - g0, self.stdout.npoints - p0, ncalls[0],
-                      getattr(r, "n_finalize", 0) - f0)
+                      getattr(r, "n_finalize", 0) - f0, npad[0])
         # data objects the library created inside this operation
         for i in range(n0, len(r.datas)):
             if k == "iter":
@@ -464,12 +505,15 @@ def ops_of(cfg):
 def fault_variants(op, calls, excs, stdout_faults=False, modes=("instead", "after")):
     """Every fault position inside *op* given the calls its fault-free run made."""
     out = []
-    nr, ng, npoints, nts, nfin = calls
+    nr, ng, npoints, nts, nfin, npad = calls
     if op[0] == "badargs":
         return out
     for j in range(1, nfin + 1):           # the j-th finalization hook run by the operation fails after its work
         for x in ("OSError", "KeyboardInterrupt"):
             out.append(("finalize", j, x))
+    for j in range(1, npad + 1):           # the j-th call into the padding object fails (resolve / padded size / pad)
+        for x in ("OSError", "KeyboardInterrupt"):
+            out.append(("padding", j, x))
     for j in range(1, nts + 1):            # the j-th terminal-size query of the operation fails
         for x in ("OSError", "KeyboardInterrupt"):
             out.append(("termsize", j, x))
@@ -651,6 +695,8 @@ def run(ctx):
         operations=[list(o) for o in ops_of(dict(rich=True))],
         fault_kinds=["k-th _render_ inside the operation", "k-th _get_render_data_ inside the operation",
                      "size validation of draw (terminal 1x1)",
+                     "k-th call into the padding object (resolve / get_padded_size / _get_exact_dimensions_ / pad) "
+                     "inside draw or RenderIterator(...) raises OSError / KeyboardInterrupt",
                      "k-th _finalize_render_data_ hook inside the operation raises after doing its work (OSError / "
                      "KeyboardInterrupt): the hook must still run at most once per data object, `finalized` must be set",
                      "k-th terminal-size query of _init_render_ inside the operation (OSError / KeyboardInterrupt)",
